@@ -56,6 +56,7 @@ class Src(object):
         self.values, self.log, self.infinite = values, log, infinite
         self.pulls = 0
         self.refs = refs
+        self.max_alive = 0
 
     def __iter__(self):
         return self
@@ -74,6 +75,10 @@ class Src(object):
         self.pulls += 1
         self.log.append(("pull", i))
         if self.refs is not None:
+            # how many earlier input values are alive at the moment of this pull
+            a = sum(1 for r in self.refs if r() is not None)
+            if a > self.max_alive:
+                self.max_alive = a
             self.refs.append(weakref.ref(v[0]))
         return v
 
@@ -263,7 +268,7 @@ def pipeline_case(draw):
     if kind == "split_first":
         els = [draw(split_el)] + els[:3]
     n = draw(st.sampled_from(list(range(8, 21)) * 2 + list(range(4, 8)) * 2 + [3, 2, 1, 0]))
-    return {"els": els, "n": n, "driver": draw(st.sampled_from(["sequence", "source"])),
+    return {"els": els, "n": n, "driver": draw(st.sampled_from(["sequence", "source", "source_iter"])),
             "stop_after": draw(st.sampled_from([99, 99, 3, 1, 1, 2, 2, 0, 4, 5, 7, 9, 12]))}
 
 
@@ -271,6 +276,17 @@ def _run(case, src, log):
     els = case["els"]
     if case.get("driver") == "source":
         s = Source(lambda: src, *[build_el(r, log) for r in els])
+        check_idle(log, src, "construction", case)
+        return s()
+    if case.get("driver") == "source_iter":
+        # a lazy iterable (not callable) as the head of the Source
+        if not els:
+            import warnings
+            with warnings.catch_warnings():
+                warnings.simplefilter("ignore")
+                s = Source(src)
+        else:
+            s = Source(src, *[build_el(r, log) for r in els])
         check_idle(log, src, "construction", case)
         return s()
     s = build(els, log)
@@ -378,9 +394,11 @@ def infinite_case(draw):
     pos = draw(st.integers(0, len(els)))
     if els and els[0][0] == "split":
         pos = max(pos, 1)
-    final = draw(st.sampled_from([["slice", stop], ["slice", 0, stop], ["slice", draw(st.integers(0, 2)), stop + 2, draw(st.integers(1, 2))]]))
+    final = draw(st.sampled_from([["slice", stop], ["slice", 0, stop], ["slice", draw(st.integers(0, 2)), stop + 2, draw(st.integers(1, 2))],
+                                  # a non-negative stop ends the run also with a negative start (no result, but it must return)
+                                  ["slice", -draw(st.integers(1, 5)), stop], ["slice", -draw(st.integers(1, 5)), stop + 1, draw(st.integers(1, 2))]]))
     els = els[:pos] + [final] + els[pos:]
-    return {"els": els, "driver": draw(st.sampled_from(["sequence", "source"]))}
+    return {"els": els, "driver": draw(st.sampled_from(["sequence", "source", "source_iter"]))}
 
 
 def judge_infinite(case):
@@ -496,6 +514,12 @@ def judge_negslice(case):
             if src.pulls != lag_exp:
                 raise Violation("negative-stop-lag",
                                 "Slice%s over %d values: %d pulls after %d results, documented lag gives %d" % (tuple(args), n, src.pulls, k, lag_exp))
+    if src.max_alive > index + 3:
+        gc.collect()
+    if src.max_alive > index + 3:
+        raise Violation("negative-slice-keeps-more-than-index-values-alive",
+                        "Slice%s over %d values: %d earlier input values alive at the moment of a pull (|index| = %d): the flow is materialised" % (
+                            tuple(args), n, src.max_alive, index))
     if got != exp:
         raise Violation("negative-slice-differs-from-list-slicing", "Slice%s over range(%d): %s expected %s" % (tuple(args), n, short(got), short(exp)))
     return {"nontrivial": len(exp) >= 1, "classes": ["form=" + case["form"], "step=%s" % step, "worst-alive-minus-index=%d" % (worst - index)]}
